@@ -3,9 +3,14 @@ mod c10;
 
 fn main() {
     let args = vpc::Args::parse();
-    match args.prop.as_str() {
+    // A panic of harness code is never a verdict: surface it as MACHINERY-FAILURE (exit 2) with its
+    // message and location. (Panics of the subject are caught per case inside the checks.)
+    let r = vpc::catch(|| match args.prop.as_str() {
         "C08" => c08::run(&args),
         "C10" => c10::run(&args),
         p => vpc::machinery_failure(&format!("property {p} is not served by this binary")),
+    });
+    if let Err(msg) = r {
+        vpc::machinery_failure(&format!("harness panic at {}: {msg}", vpc::last_panic_location()));
     }
 }
